@@ -731,7 +731,7 @@ pub fn run_type<T: Cat + DecodeAll + DecodeLimit>(ctx: &mut Ctx, stream: &str, n
 			// recursive types nest as deep as the payload says: give the decoder a deep stack
 			std::thread::scope(|sc| {
 				std::thread::Builder::new()
-					.stack_size(4 << 30)
+					.stack_size(512 << 20)
 					.spawn_scoped(sc, || alloc_type::<T>(ctx, name, o, &mut g))
 					.unwrap()
 					.join()
